@@ -124,6 +124,17 @@ CHECKS = {
         text="exactly-once visits of the sampled part, at most one draw per infoset and pass at allowed sites only, every "
              "lock attempt succeeds, frontier as specified; results equal to the single-threaded run under the same draws.",
         note="draws pinned through the cfr_verif hook; model shapes up to 9 nodes for External"),
+    "C12": dict(
+        category="model_checking", design_ref="4 C12",
+        technique="Transform.tla (alternative presentations as operators on raw trees, with the relation each must "
+                  "induce on evaluations and solver results) checked by TLC on the exact model (Game.tla, Cfr.tla) for "
+                  "every case; both presentations replayed into from_root / get_info / solve(Full) and compared with the "
+                  "exact values and with each other under the relation",
+        text="TLC checks EvalRelated / SolveRelated exactly (T<=2) on every seeded (game, profile, transformation) and "
+             "emits the transformed presentation; the real code must agree with the exact values on both presentations "
+             "and relate the two solutions as stated for budgets up to 100 (1000 thorough) and all presets.",
+        note="impl-vs-impl comparisons use integer payoffs at 1e-12 where both sides perform the same operations and "
+             "generic payoffs at 1e-9 otherwise; finite non-zero softmax weights excluded for payoff scaling"),
 }
 
 NOT_YET = "check not built yet (construction in progress, see DESIGN.md section 9)"
